@@ -95,3 +95,44 @@ pub proof fn lemma_copy_range(src: Seq<{I}>, pre: Seq<{I}>, post: Seq<{I}>, s: i
         }
     }
 }
+// same as lemma_copy_range but for a result shorter than the source (Bvd allocates exactly the words needed)
+pub proof fn lemma_copy_range_general(src: Seq<{I}>, pre: Seq<{I}>, post: Seq<{I}>, s: int, length: int)
+    requires
+        pre.len() == (length + {I.bits} - 1) / {I.bits}, post.len() == pre.len(), 0 <= s, 0 <= length, s + length <= src.len() * {I.bits},
+        forall|k: int| 0 <= k < pre.len() ==> pre[k] == funnel_word(src, k, s / {I.bits}, s % {I.bits}),
+        post == (if length / {I.bits} < pre.len() {
+            pre.update(length / {I.bits}, pre[length / {I.bits}] & mask_spec((if length == 0 { {I.bits} as int } else { (length - 1) % {I.bits} + 1 }) as nat))
+        } else { pre }),
+    ensures
+        forall|b: int| 0 <= b < post.len() * {I.bits} ==> #[trigger] bit_at(post, b) == (b < length && bit_at(src, s + b)),
+{
+    reveal(funnel_word);
+    let nw = pre.len() as int;
+    let offset = s / {I.bits};
+    let slide = s % {I.bits};
+    let li = length / {I.bits};
+    let m = if length == 0 { {I.bits} as int } else { (length - 1) % {I.bits} + 1 };
+    assert forall|b: int| 0 <= b < nw * {I.bits} implies #[trigger] bit_at(post, b) == (b < length && bit_at(src, s + b)) by {
+        let k = b / {I.bits};
+        let j = b % {I.bits};
+        assert(k * {I.bits} < length);
+        assert(k + offset < src.len());
+        assert(pre[k] == funnel_word(src, k, offset, slide));
+        lemma_add_idx(s, b);
+        if slide > 0 {
+            let w1 = src[k + offset];
+            let w2 = if k + offset + 1 < src.len() { src[k + offset + 1] } else { 0{I} };
+            lemma_funnel(w1, w2, slide as {I}, j as {I});
+            if j + slide >= {I.bits} && k + offset + 1 >= src.len() { lemma_wbit_zero((j + slide - {I.bits}) as {I}); }
+        }
+        // now bit_at(pre, b) == (s + b < src.len()*WB && bit_at(src, s + b))
+        if k == li {
+            lemma_and_mask(pre[li], m as {I}, j as {I});
+            assert(m == length % {I.bits});
+            assert((b < length) == (j < m));
+        } else {
+            assert(post[k] == pre[k]);
+            assert(k < li);
+        }
+    }
+}
